@@ -24,6 +24,18 @@ CHECKS = {
          '19 200 (quick) / 320 000 (thorough) generated text templates over a markup-hostile alphabet (including sources beginning with "<", tag-like, tal:-like, comment/CDATA/PI-like runs) with ${expr} parts from the brace/quote-rich grammar and values containing markup, bytes, None, objects; one in eight also through the file-based class in utf-8 and latin-1 (bytes result compared). Held = all observed outputs equal the expectation.',
          'Trusted: Python eval; newline normalisation expected as for C03 (outside XML mode); ambiguous inputs (literal "${", odd "$" run directly before "${") are not generated.',
          'DESIGN.md §3 C20'),
+ 'C08': ('invariant-hooks+closed-form+model',
+         'runtime monitor: closed-form oracle over every (length, position) printed by a probe template on the real engine, icontract postconditions on the real RepeatItem attribute functions (M-repeat), loop-nest reference interpreter, separator expectation',
+         'exploration',
+         'All positions of all lengths 0..60 (quick) / 0..150 (thorough) plus boundary lengths around 26^2, 26^3 and 3999/4000, over seven iterable kinds, are rendered and compared with independently computed index/number/even/odd/parity/start/end/length/letter/Letter/roman/Roman (exhaustive within the bound); ~1.5 M contract evaluations on the real RepeatItem per quick run; 2 400 / 48 000 generated loop nests (reused names, tuple unpacking, one-shot iterators, None) against a reference interpreter; 960 / 24 000 separator placements.',
+         'Trusted: the closed forms (letter = positional base 26 as in ZPT), the small loop-nest interpreter; not generated: tab indentation, repeated elements not on their own line, global repeat.',
+         'DESIGN.md §3 C08'),
+ 'C17': ('decision-table+differential',
+         'runtime oracle: independent sniffing function (BOM, declaration, meta, default) and differential render(bytes) vs render(decoded str) on the real engine over a generated decision table',
+         'exploration',
+         '4 000 (quick) / 64 000 (thorough) generated cells (encoding x BOM x XML-declaration spelling x meta spelling x default_encoding x bytes/file class) with generated bodies encodable in the cell\'s encoding; for every judged cell the rendering must equal that of the decoded string, report the decided encoding and content type, contain no U+FEFF and show the XML/HTML mode effects (implicit booleans, newline rewriting) observed on the rendering itself.',
+         'Trusted: Python codecs; the 25-line sniffer written from the statement; cells whose bytes do not determine the encoding are counted, not judged.',
+         'DESIGN.md §3 C17'),
 }
 NOT_YET = {}
 
